@@ -10,7 +10,10 @@ always-true, `1`/`0` and isinstance tests; with (`__enter__`); try/except/finall
 without a raise; while/break; augmented assignment through `__add__` inside for loops; nested
 functions, closures, lambdas, default arguments; decorators that return the function;
 property/staticmethod/classmethod; `__getitem__`/`__call__`/`__iter__`/`__enter__`; single
-inheritance; tuple/list/dict literals, constant indexing, (nested) tuple unpacking.
+inheritance; tuple/list/dict literals, constant indexing, (nested) tuple unpacking; holder objects
+created by the constructor or by the (for H9: inherited) classmethod `H.mk(..)` and probed
+themselves (soundness only).  Class families with descriptor binding through inheritance are the
+business of gen/descbind.py (same probe convention, same runner).
 
 Values are instances of the tiny classes V0..V5 (typeshed is empty in this sandbox: no True/False/
 None, no builtin call results, no str/int methods).  Every probed expression is first assigned to a
